@@ -204,131 +204,179 @@ func runMerge(c *Ctx, prop string) {
 			}
 		}
 	}
-	if len(cmps) != 1 && len(badCmp) == 0 {
-		c.Unk(rule, fnm, "keycmp", ov.Pos(), fmt.Sprintf("expected one key comparison between an existing and an injected element, found %d: merge shape not recognised", len(cmps)))
-		return
-	}
-	if len(badCmp) > 0 {
-		c.Bad(rule, fnm, "keycmp", ov.Pos(), strings.Join(badCmp, "; "))
-		return
-	}
-	kc := cmps[0]
-	c.OK(rule, fnm, "keycmp", kc.bin.Pos(), "existing[i].key == injected[j].key")
-
-	// ---- the matched index: a phi (or the inner index itself) with a constant sentinel
-	//      and the inner index arriving only from the equal edge
-	eqEdgeFrom := kc.bin.Block()
-	var eqTo *ssa.BasicBlock
-	if iff, ok := eqEdgeFrom.Instrs[len(eqEdgeFrom.Instrs)-1].(*ssa.If); ok && iff.Cond == kc.bin {
-		if kc.bin.Op == token.EQL {
-			eqTo = eqEdgeFrom.Succs[0]
-		} else {
-			eqTo = eqEdgeFrom.Succs[1]
-		}
-	}
-	if eqTo == nil {
-		c.Unk(rule, fnm, "take", kc.bin.Pos(), "the key comparison does not decide a branch: merge shape not recognised")
-		return
-	}
-	// first match: the injected list is searched from its first element upwards and the search stops
-	// at the first equal key (with a key repeated in the comment, taking the last one — a descending
-	// search, or one that keeps going — makes the two values swap places on every run)
-	{
-		var bad []string
-		var inner *loopInfo
-		for _, l := range naturalLoops(ov) {
-			if l.Body[kc.bin.Block()] && (inner == nil || len(l.Body) < len(inner.Body)) {
-				inner = l
-			}
-		}
-		if inner == nil {
-			bad = append(bad, "the key comparison is not inside a search loop")
-		} else {
-			if inner.Body[eqTo] && eqTo != inner.Header {
-				// still inside: allowed only if it leads straight out (e.g. sets the index then breaks)
-				leaves := false
-				for _, s2 := range eqTo.Succs {
-					if !inner.Body[s2] {
-						leaves = true
+	var dup ssa.Value
+	var sentinel int64
+	var recvIdx ssa.Value
+	var cmpPos token.Pos
+	helperMode := false
+	if len(cmps) == 0 && len(badCmp) == 0 {
+		// the search may have been extracted: dup := injected.indexOfKey(existing[i].key)
+		for _, b := range ov.Blocks {
+			for _, ins := range b.Instrs {
+				call, ok := ins.(*ssa.Call)
+				if !ok {
+					continue
+				}
+				h := staticCallee(&call.Call)
+				if h == nil || h.Pkg != ov.Pkg || h.Object() == nil || h.Object().Exported() || len(call.Call.Args) != 2 {
+					continue
+				}
+				listArg, keyArg := -1, -1
+				var ri ssa.Value
+				for ai, a := range call.Call.Args {
+					if onlyRoot(a, argRoot) {
+						listArg = ai
+					}
+					if ld, ok := a.(*ssa.UnOp); ok && ld.Op == token.MUL {
+						if fa, ok := ld.X.(*ssa.FieldAddr); ok && fieldAddrName(fa) == "key" {
+							if ia, ok := fa.X.(*ssa.IndexAddr); ok && onlyRoot(ia.X, recvRoot) {
+								keyArg, ri = ai, ia.Index
+							}
+						}
 					}
 				}
-				if !leaves {
+				if listArg < 0 || keyArg < 0 {
+					continue
+				}
+				sent, why := analyseSearchHelper(h, listArg, keyArg)
+				c.Funcs[fnName(h)] = true
+				c.Sites++
+				if why != "" {
+					c.Bad(rule, fnm, "keycmp", call.Pos(), "search helper "+h.Name()+": "+why)
+					return
+				}
+				helperMode, dup, sentinel, recvIdx, cmpPos = true, call, sent, ri, call.Pos()
+				c.OK(rule, fnm, "keycmp", call.Pos(), "existing[i].key searched in the injected list by "+h.Name()+" (first equal key, ascending, negative when absent)")
+				c.OK(rule, fnm, "first-match", call.Pos(), "ascending search in "+h.Name()+", returns at the first equal key")
+			}
+		}
+	}
+	if !helperMode {
+		if len(cmps) != 1 && len(badCmp) == 0 {
+			c.Unk(rule, fnm, "keycmp", ov.Pos(), fmt.Sprintf("expected one key comparison between an existing and an injected element, found %d: merge shape not recognised", len(cmps)))
+			return
+		}
+		if len(badCmp) > 0 {
+			c.Bad(rule, fnm, "keycmp", ov.Pos(), strings.Join(badCmp, "; "))
+			return
+		}
+		kc := cmps[0]
+		recvIdx, cmpPos = kc.recvIdx, kc.bin.Pos()
+		c.OK(rule, fnm, "keycmp", kc.bin.Pos(), "existing[i].key == injected[j].key")
+
+		// ---- the matched index: a phi (or the inner index itself) with a constant sentinel
+		//      and the inner index arriving only from the equal edge
+		eqEdgeFrom := kc.bin.Block()
+		var eqTo *ssa.BasicBlock
+		if iff, ok := eqEdgeFrom.Instrs[len(eqEdgeFrom.Instrs)-1].(*ssa.If); ok && iff.Cond == kc.bin {
+			if kc.bin.Op == token.EQL {
+				eqTo = eqEdgeFrom.Succs[0]
+			} else {
+				eqTo = eqEdgeFrom.Succs[1]
+			}
+		}
+		if eqTo == nil {
+			c.Unk(rule, fnm, "take", kc.bin.Pos(), "the key comparison does not decide a branch: merge shape not recognised")
+			return
+		}
+		// first match: the injected list is searched from its first element upwards and the search stops
+		// at the first equal key (with a key repeated in the comment, taking the last one — a descending
+		// search, or one that keeps going — makes the two values swap places on every run)
+		{
+			var bad []string
+			var inner *loopInfo
+			for _, l := range naturalLoops(ov) {
+				if l.Body[kc.bin.Block()] && (inner == nil || len(l.Body) < len(inner.Body)) {
+					inner = l
+				}
+			}
+			if inner == nil {
+				bad = append(bad, "the key comparison is not inside a search loop")
+			} else {
+				if inner.Body[eqTo] && eqTo != inner.Header {
+					// still inside: allowed only if it leads straight out (e.g. sets the index then breaks)
+					leaves := false
+					for _, s2 := range eqTo.Succs {
+						if !inner.Body[s2] {
+							leaves = true
+						}
+					}
+					if !leaves {
+						bad = append(bad, "the search goes on after a matching key was found (the last match wins)")
+					}
+				} else if eqTo == inner.Header {
 					bad = append(bad, "the search goes on after a matching key was found (the last match wins)")
 				}
-			} else if eqTo == inner.Header {
-				bad = append(bad, "the search goes on after a matching key was found (the last match wins)")
-			}
-			// ascending induction of the injected index
-			asc := false
-			var iv ssa.Value = kc.inIdx
-			if bo, ok := iv.(*ssa.BinOp); ok && bo.Op == token.ADD { // range loops index with phi+1
-				if k, isK := constInt(bo.Y); isK && k == 1 {
-					iv = bo.X
+				// ascending induction of the injected index
+				asc := false
+				var iv ssa.Value = kc.inIdx
+				if bo, ok := iv.(*ssa.BinOp); ok && bo.Op == token.ADD { // range loops index with phi+1
+					if k, isK := constInt(bo.Y); isK && k == 1 {
+						iv = bo.X
+					}
 				}
-			}
-			if ph, ok := iv.(*ssa.Phi); ok && ph.Block() == inner.Header {
-				asc = true
-				for i, e := range ph.Edges {
-					if !inner.Body[ph.Block().Preds[i]] {
-						if k, isK := constInt(e); !isK || (k != 0 && k != -1) {
+				if ph, ok := iv.(*ssa.Phi); ok && ph.Block() == inner.Header {
+					asc = true
+					for i, e := range ph.Edges {
+						if !inner.Body[ph.Block().Preds[i]] {
+							if k, isK := constInt(e); !isK || (k != 0 && k != -1) {
+								asc = false
+							}
+							continue
+						}
+						bo, ok := e.(*ssa.BinOp)
+						if !ok || bo.Op != token.ADD {
+							asc = false
+							continue
+						}
+						if k, isK := constInt(bo.Y); !isK || k != 1 || bo.X != ph {
 							asc = false
 						}
-						continue
-					}
-					bo, ok := e.(*ssa.BinOp)
-					if !ok || bo.Op != token.ADD {
-						asc = false
-						continue
-					}
-					if k, isK := constInt(bo.Y); !isK || k != 1 || bo.X != ph {
-						asc = false
 					}
 				}
+				if !asc {
+					bad = append(bad, "the injected list is not searched from its first element upwards")
+				}
 			}
-			if !asc {
-				bad = append(bad, "the injected list is not searched from its first element upwards")
-			}
+			c.Sites++
+			c.Check(len(bad) == 0, rule, fnm, "first-match", kc.bin.Pos(), "ascending search, stops at the first equal key", strings.Join(bad, "; "))
 		}
-		c.Sites++
-		c.Check(len(bad) == 0, rule, fnm, "first-match", kc.bin.Pos(), "ascending search, stops at the first equal key", strings.Join(bad, "; "))
-	}
-	// dup candidates: phis one of whose edges is kc.inIdx arriving from a block dominated by the equal edge
-	var dup *ssa.Phi
-	var sentinel int64
-	for _, b := range ov.Blocks {
-		for _, ins := range b.Instrs {
-			ph, ok := ins.(*ssa.Phi)
-			if !ok {
-				continue
-			}
-			hasIdx, hasConst, other := false, false, false
-			var k int64
-			for i, e := range ph.Edges {
-				if e == kc.inIdx {
-					pred := b.Preds[i]
-					if pred == eqTo || edgeDominates(eqEdgeFrom, eqTo, pred) || (pred == eqEdgeFrom && false) {
-						hasIdx = true
+		// dup candidates: phis one of whose edges is kc.inIdx arriving from a block dominated by the equal edge
+		for _, b := range ov.Blocks {
+			for _, ins := range b.Instrs {
+				ph, ok := ins.(*ssa.Phi)
+				if !ok {
+					continue
+				}
+				hasIdx, hasConst, other := false, false, false
+				var k int64
+				for i, e := range ph.Edges {
+					if e == kc.inIdx {
+						pred := b.Preds[i]
+						if pred == eqTo || edgeDominates(eqEdgeFrom, eqTo, pred) || (pred == eqEdgeFrom && false) {
+							hasIdx = true
+						} else {
+							other = true
+						}
+					} else if kv, ok := constInt(e); ok {
+						if hasConst && kv != k {
+							other = true
+						}
+						hasConst, k = true, kv
+					} else if e == ph {
+						// self edge
 					} else {
 						other = true
 					}
-				} else if kv, ok := constInt(e); ok {
-					if hasConst && kv != k {
-						other = true
-					}
-					hasConst, k = true, kv
-				} else if e == ph {
-					// self edge
-				} else {
-					other = true
+				}
+				if hasIdx && hasConst && !other {
+					dup, sentinel = ph, k
 				}
 			}
-			if hasIdx && hasConst && !other {
-				dup, sentinel = ph, k
-			}
 		}
-	}
+	} // !helperMode
 	if dup == nil {
-		c.Unk(rule, fnm, "take", kc.bin.Pos(), "no 'matched index' variable (sentinel, or the injected index on the equal edge) found: merge shape not recognised")
+		c.Unk(rule, fnm, "take", cmpPos, "no 'matched index' variable (sentinel, or the injected index on the equal edge) found: merge shape not recognised")
 		return
 	}
 	if sentinel >= 0 {
@@ -474,7 +522,7 @@ func runMerge(c *Ctx, prop string) {
 		switch {
 		case onlyRoot(X, recvRoot):
 			nKeep++
-			if idx != kc.recvIdx {
+			if idx != recvIdx {
 				keepBad = append(keepBad, "the existing element appended is not the one whose key was compared at "+p.Pos(call.Pos()))
 			}
 			if !(noMatchTo == call.Block() || edgeDominates(noMatchFrom, noMatchTo, call.Block())) {
@@ -790,4 +838,112 @@ func sortGlobals(gs []*ssa.Global) {
 			gs[j-1], gs[j] = gs[j], gs[j-1]
 		}
 	}
+}
+
+// analyseSearchHelper: h(list, key) (in either parameter order) must be "index of the first
+// element of list whose key equals key, a negative constant when there is none": one ascending
+// loop over the list parameter, one equality test between the element's key field and the key
+// parameter whose true edge returns the loop index, and a negative constant returned otherwise.
+func analyseSearchHelper(h *ssa.Function, listArg, keyArg int) (sentinel int64, why string) {
+	if len(h.Params) != 2 {
+		return 0, "unexpected signature"
+	}
+	list, key := h.Params[listArg], h.Params[keyArg]
+	loops := naturalLoops(h)
+	if len(loops) != 1 {
+		return 0, fmt.Sprintf("expected one search loop, found %d", len(loops))
+	}
+	l := loops[0]
+	var cmp *ssa.BinOp
+	var idx ssa.Value
+	for b := range l.Body {
+		for _, ins := range b.Instrs {
+			bo, ok := ins.(*ssa.BinOp)
+			if !ok || (bo.Op != token.EQL && bo.Op != token.NEQ) {
+				continue
+			}
+			for _, pair := range [][2]ssa.Value{{bo.X, bo.Y}, {bo.Y, bo.X}} {
+				if pair[1] != ssa.Value(key) {
+					continue
+				}
+				ld, ok := pair[0].(*ssa.UnOp)
+				if !ok {
+					continue
+				}
+				fa, ok := ld.X.(*ssa.FieldAddr)
+				if !ok {
+					continue
+				}
+				ia, ok := fa.X.(*ssa.IndexAddr)
+				if !ok || ia.X != ssa.Value(list) {
+					continue
+				}
+				if fieldAddrName(fa) != "key" {
+					return 0, "elements are matched on " + fieldAddrName(fa) + ", not on their keys"
+				}
+				cmp, idx = bo, ia.Index
+			}
+		}
+	}
+	if cmp == nil {
+		return 0, "no comparison of an element's key with the searched key"
+	}
+	iff, ok := cmp.Block().Instrs[len(cmp.Block().Instrs)-1].(*ssa.If)
+	if !ok || iff.Cond != cmp {
+		return 0, "the key comparison does not decide a branch"
+	}
+	eqTo := cmp.Block().Succs[0]
+	if cmp.Op == token.NEQ {
+		eqTo = cmp.Block().Succs[1]
+	}
+	ret, isRet := eqTo.Instrs[len(eqTo.Instrs)-1].(*ssa.Return)
+	if !isRet || len(ret.Results) != 1 || ret.Results[0] != idx {
+		return 0, "a matching key does not return its index at once (the last match would win)"
+	}
+	// ascending induction
+	iv := idx
+	if bo, ok := iv.(*ssa.BinOp); ok && bo.Op == token.ADD {
+		if k, isK := constInt(bo.Y); isK && k == 1 {
+			iv = bo.X
+		}
+	}
+	ph, ok := iv.(*ssa.Phi)
+	if !ok || ph.Block() != l.Header {
+		return 0, "the list is not searched from its first element upwards"
+	}
+	for i, e := range ph.Edges {
+		if !l.Body[ph.Block().Preds[i]] {
+			if k, isK := constInt(e); !isK || (k != 0 && k != -1) {
+				return 0, "the list is not searched from its first element upwards"
+			}
+			continue
+		}
+		bo, ok := e.(*ssa.BinOp)
+		if !ok || bo.Op != token.ADD || bo.X != ssa.Value(ph) {
+			return 0, "the list is not searched from its first element upwards"
+		}
+		if k, isK := constInt(bo.Y); !isK || k != 1 {
+			return 0, "the list is not searched from its first element upwards"
+		}
+	}
+	// other returns: one negative constant
+	found := false
+	for _, b := range h.Blocks {
+		r, isRet := b.Instrs[len(b.Instrs)-1].(*ssa.Return)
+		if !isRet || b == eqTo {
+			continue
+		}
+		k, isK := constInt(r.Results[0])
+		if !isK || k >= 0 {
+			return 0, "'not found' is not reported by a negative constant"
+		}
+		if found && k != sentinel {
+			return 0, "several 'not found' values"
+		}
+		sentinel, found = k, true
+	}
+	if !found {
+		return 0, "no 'not found' result"
+	}
+	return sentinel, ""
 }
